@@ -369,6 +369,13 @@ class Sim:
             if r.completed and not before["req"].get(r.id, False):
                 self.completed_by_daemon.add(r.id)
                 self.just_completed.add(r.id)
+        # external tampering travels with the bytes: a transfer completed from a tampered source copy leaves a tampered destination
+        for rid in self.just_completed:
+            r = w.ArchiveFileCopyRequest.get(id=rid)
+            rel = f"{r.file.acq.name}/{r.file.name}"
+            if (r.node_from.name, rel) in self.tainted:
+                for n in w.StorageNode.select().where(w.StorageNode.group == r.group_to_id):
+                    self.tainted.add((n.name, rel))
         for c in w.ArchiveFileCopy.select():
             if c.has_file == "N" and before["copy"].get(c.id, "N") != "N":
                 self.removed_by_daemon.add(c.id)
